@@ -54,9 +54,10 @@ def r18_1(ctx, rep):
                "every equation is rewritten to scalars" % g)
     extra = [g for g in groups if g not in sig]
     rep.ob(R, SITE, "no foreign group", not extra, "groups %s are expanded but are not variable lists of the signature" % extra)
-    body = [norm(s) for s in loop.body]
-    rep.ob(R, SITE, "read and write back the same group",
-           any(b == "old_vars = getattr(self, %s)" % loopvar for b in body) and any(b.startswith("setattr(self, %s," % loopvar) for b in body),
+    reads = [st for st in loop.body if isinstance(st, ast.Assign) and isinstance(st.targets[0], ast.Name) and norm(st.value) == "getattr(self, %s)" % loopvar]
+    writes = [c for st in loop.body if isinstance(st, ast.Expr) for c in [st.value] if isinstance(c, ast.Call) and is_name(c.func, "setattr")
+              and len(c.args) == 3 and is_name(c.args[0], "self") and is_name(c.args[1], loopvar)]
+    rep.ob(R, SITE, "read and write back the same group", bool(reads) and bool(writes),
            "each group must be read with getattr(self, group) and written back with setattr(self, group, new list)")
 
 
@@ -97,10 +98,12 @@ def r18_3(ctx, rep):
     R = "R18.3"
     fn = ctx.func(MODEL, "Model._expand_vectors", R)
     n = 0
+    # loop variables bound to a numpy multi-index: `for <v> in np.ndindex(...)`
+    nd_vars = {lp.target.id for lp in ast.walk(fn) if isinstance(lp, ast.For) and isinstance(lp.target, ast.Name) and "np.ndindex(" in norm(lp.iter)}
     for c in calls(fn):
         if isinstance(c.func, ast.Attribute) and c.func.attr in ("format", "join") and c.args:
             for g in ast.walk(c):
-                if isinstance(g, ast.GeneratorExp) and isinstance(g.generators[0].iter, ast.Name) and g.generators[0].iter.id == "ind":
+                if isinstance(g, ast.GeneratorExp) and isinstance(g.generators[0].iter, ast.Name) and g.generators[0].iter.id in nd_vars:
                     n += 1
                     v = g.generators[0].target.id
                     elt = norm(g.elt)
@@ -135,9 +138,13 @@ def element_correspondence(ctx, rep, R):
             for x in ast.walk(lp):
                 if isinstance(x, ast.For) and is_name(x.iter, ind) and isinstance(x.target, ast.Name):
                     comps.add(x.target.id)
+            # the attribute value read from the old variable, and the element that is stored on the new scalar variable
+            srcs = {x.targets[0].id for x in ast.walk(lp) if isinstance(x, ast.Assign) and isinstance(x.targets[0], ast.Name)
+                    and isinstance(x.value, ast.Call) and is_name(x.value.func, "getattr")}
+            dsts = {c.args[2].id for c in ast.walk(lp) if isinstance(c, ast.Call) and is_name(c.func, "setattr") and len(c.args) == 3 and isinstance(c.args[2], ast.Name)}
             for x in ast.walk(lp):
                 if isinstance(x, ast.Assign) and isinstance(x.value, ast.Subscript) and isinstance(x.value.value, ast.Name) \
-                        and x.value.value.id in ("value", "val") and isinstance(x.targets[0], ast.Name) and x.targets[0].id == "val":
+                        and x.value.value.id in (srcs | dsts) and isinstance(x.targets[0], ast.Name) and x.targets[0].id in dsts:
                     n += 1
                     sl = x.value.slice
                     ok = is_name(sl, ind) or (isinstance(sl, ast.Name) and sl.id in comps)
